@@ -362,6 +362,15 @@ theorem cStallTimesOut_iff (i : Input) (o : Output) :
 theorem cReturns_iff (o : Output) : cReturns o = true ↔ (o.res ≠ .hang ∧ o.res ≠ .panic) := by
   simp [cReturns]
 
+theorem cPinGivesUp_iff (i : Input) (o : Output) :
+    cPinGivesUp i o = true ↔ (i.op = .pin → o.res ≠ .errctx ∧ o.res ≠ .hang) := by
+  by_cases h : i.op = .pin <;> simp [cPinGivesUp, h]
+
+theorem updCall_res2 (t : Table) (f c : Nat) (b : Beh) :
+    (updCall t f c b).1 = .ok ∨ (updCall t f c b).1 = .err := by
+  unfold updCall
+  split <;> (try split) <;> simp
+
 theorem cUpdateOnlyIfRecursive_iff (i : Input) (o : Output) :
     cUpdateOnlyIfRecursive i o = true ↔
       (∀ f t u, Req.upd f t u ∈ o.trace → i.op = .pin ∧ i.src = some f ∧ t = i.cid ∧ i.table f = .r) := by
